@@ -245,7 +245,7 @@ def main():
                 run_case({"v": s}, [("cmp", "StringMatches", ["v"], p)], True, "glob")
     # G3: timestamps in every notation against each other
     for a in ts_vals:
-        for b in (ts_vals if thorough else rng.sample(ts_vals, 5)):
+        for b in (rng.sample(ts_vals, 40) if thorough else rng.sample(ts_vals, 5)):      # (all pairs of the ~420 thorough values would be half a million cases)
             for op in ("TimestampEquals", "TimestampLessThan", "TimestampGreaterThanEquals"):
                 run_case({"v": a}, [("cmp", op, ["v"], b)], False, "timestamp")
 
